@@ -376,6 +376,12 @@ func stripTsig(msg []byte) ([]byte, *TSIG, error) {
 			return nil, nil, err
 		}
 		if extra.Header().Rrtype == TypeTSIG {
+			// A TSIG anywhere but at the very end of the additional section
+			// is a format error (RFC 8945, section 5.2): what follows it
+			// would not be covered by the MAC.
+			if i != int(dh.Arcount)-1 {
+				return nil, nil, &Error{err: "TSIG is not the last record"}
+			}
 			rr = extra.(*TSIG)
 			// Adjust Arcount.
 			arcount := binary.BigEndian.Uint16(msg[10:])
